@@ -1,10 +1,311 @@
 package engc
 
-import "verif/internal/drv"
+import (
+	"encoding/json"
+	"fmt"
+	"os"
+	"os/exec"
+	"path/filepath"
+	"regexp"
+	"sort"
+	"strings"
+	"sync"
+	"time"
 
-// straceCrossCheck validates the simulated disk against the real kernel (filled in below).
-func (b *build) straceCrossCheck(out *drv.Outcome, seed uint64) map[string]any {
-	return nil
+	"verif/internal/drv"
+)
+
+// The real-kernel cross-check: the real binary on a real directory, with strace killing
+// the process at, or failing, the N-th occurrence of each filesystem system call. Same
+// oracle as the simulated disk. It validates that simos does not flatter the installer.
+
+type straceCase struct {
+	Scenario string `json:"scenario"` // fresh-default | older-user | fresh-path
+	Syscall  string `json:"syscall"`
+	When     int    `json:"when"`
+	Kind     string `json:"kind"` // kill | eio | enospc
 }
 
-func (b *build) replayStrace(raw []byte, file string) int { return drv.ExitOK }
+var straceSyscalls = []string{"mkdirat", "openat", "write", "fsync", "close", "fchmodat", "renameat", "unlinkat", "newfstatat"}
+
+type straceScenario struct {
+	name  string
+	agent string
+	args  []string
+	older bool
+}
+
+var straceScenarios = []straceScenario{
+	{"fresh-default", "claude-code", nil, false},
+	{"older-user", "opencode", []string{"--user"}, true},
+	{"older-path", "goose", []string{"--path", "custom/dir"}, true},
+}
+
+type straceRun struct {
+	exit     int
+	killed   bool
+	injected bool
+	pre      map[string]realEntry
+	post     map[string]realEntry
+	dest     string // relative to root
+	out      string
+	root     string
+}
+
+// runStrace sets up the scenario in a private directory and runs the real binary under strace.
+func (b *build) runStrace(doc []docAgent, sc straceScenario, c *straceCase, id string, rels []string, keep bool) *straceRun {
+	root := filepath.Join(b.scratch, "strace", id)
+	_ = os.RemoveAll(root)
+	home, cwd := filepath.Join(root, "home"), filepath.Join(root, "cwd")
+	_ = os.MkdirAll(home, 0o755)
+	_ = os.MkdirAll(cwd, 0o755)
+	var a *docAgent
+	for i := range doc {
+		if doc[i].CLI == sc.agent {
+			a = &doc[i]
+		}
+	}
+	if a == nil {
+		drv.Broken("strace cross-check: agent %s is not documented", sc.agent)
+	}
+	base := filepath.Join(cwd, a.Project)
+	for i, arg := range sc.args {
+		if arg == "--user" {
+			base = filepath.Join(home, a.User)
+		}
+		if arg == "--path" {
+			base = filepath.Join(cwd, sc.args[i+1])
+		}
+	}
+	dest := filepath.Join(base, "kessoku-di")
+	if sc.older {
+		for i, rel := range rels {
+			p := filepath.Join(dest, rel)
+			_ = os.MkdirAll(filepath.Dir(p), 0o755)
+			_ = os.WriteFile(p, []byte("OLD "+rel+"\n"), []os.FileMode{0o600, 0o644, 0o444}[i%3])
+		}
+		_ = os.WriteFile(filepath.Join(dest, ".tmp-123456"), []byte("leftover of an earlier crash"), 0o600)
+		_ = os.WriteFile(filepath.Join(dest, "notes.txt"), []byte("mine"), 0o600)
+	}
+	r := &straceRun{root: root}
+	r.dest, _ = filepath.Rel(root, dest)
+	r.pre = snapshotReal(root)
+	args := []string{"-f", "-o", filepath.Join(root + ".trace")}
+	if c != nil {
+		spec := fmt.Sprintf("inject=%s:when=%d:", c.Syscall, c.When)
+		switch c.Kind {
+		case "kill":
+			spec += "signal=SIGKILL"
+		case "eio":
+			spec += "error=EIO"
+		case "enospc":
+			spec += "error=ENOSPC"
+		}
+		args = append(args, "-e", "trace="+c.Syscall, "-e", spec)
+	} else {
+		args = append(args, "-e", "trace="+strings.Join(straceSyscalls, ","))
+	}
+	args = append(args, b.kessoku, "llm-setup", sc.agent)
+	args = append(args, sc.args...)
+	res := drv.Run(cwd, 2*time.Minute, []string{"HOME=" + home, "GOMAXPROCS=1"}, "strace", args...)
+	if res.Code == -2 {
+		drv.Broken("strace run timed out")
+	}
+	r.exit = res.Code
+	r.out = string(res.Out)
+	tr, _ := os.ReadFile(root + ".trace")
+	r.injected = strings.Contains(string(tr), "(INJECTED)")
+	r.killed = strings.Contains(string(tr), "+++ killed by SIGKILL +++")
+	r.post = snapshotReal(root)
+	if !keep {
+		_ = os.Remove(root + ".trace")
+	}
+	return r
+}
+
+// judge applies the C15 oracle to a real tree.
+func judgeReal(r *straceRun, skill map[string]string, rels []string, crashed bool) (string, string) {
+	sep := string(filepath.Separator)
+	for _, rel := range rels {
+		p := filepath.Join(r.dest, rel)
+		po, ok := r.post[p]
+		pr, had := r.pre[p]
+		switch {
+		case !ok:
+			if had {
+				return "kernel:dest_removed", p + " existed before and is gone"
+			}
+		case had && pr == po:
+		case !po.Dir && po.Data == skill[rel]:
+			if po.Mode != 0o644 {
+				return "kernel:wrong_mode", fmt.Sprintf("%s has the new content but mode %o", p, po.Mode)
+			}
+		default:
+			if crashed {
+				return "kernel:torn_destination", fmt.Sprintf("%s is neither absent, old nor new (%d bytes, mode %o)", p, len(po.Data), po.Mode)
+			}
+			return "kernel:dest_damaged_after_error", fmt.Sprintf("%s is neither old nor new (%d bytes)", p, len(po.Data))
+		}
+	}
+	if crashed {
+		return "", ""
+	}
+	complete := true
+	for _, rel := range rels {
+		po, ok := r.post[filepath.Join(r.dest, rel)]
+		if !ok || po.Data != skill[rel] || po.Mode != 0o644 {
+			complete = false
+		}
+	}
+	if r.exit == 0 {
+		if !complete {
+			return "kernel:error_not_reported", "a system call failed, the CLI exited 0 and the tree is incomplete"
+		}
+		return "", ""
+	}
+	for p := range r.post {
+		if strings.HasPrefix(filepath.Base(p), ".tmp-") && strings.HasPrefix(p, r.dest+sep) || strings.HasPrefix(filepath.Base(p), ".tmp-") && filepath.Dir(p) == r.dest {
+			if _, had := r.pre[p]; !had {
+				return "kernel:tmp_left_after_error", "temporary file " + p + " left behind after an injected failure"
+			}
+		}
+	}
+	return "", ""
+}
+
+var reTraceLine = regexp.MustCompile(`^(\d+)\s+([a-z0-9_]+)\(`)
+
+func (b *build) straceCrossCheck(out *drv.Outcome, seed uint64) map[string]any {
+	if _, err := exec.LookPath("strace"); err != nil {
+		return map[string]any{"available": false, "reason": "strace not installed"}
+	}
+	b.buildCLI()
+	doc := parseReadme(filepath.Join(b.scratch, "pristine", "README.md"))
+	skill, rels := loadSkillReal(filepath.Join(b.scratch, "pristine", "internal", "llmsetup", "skills", "kessoku-di"))
+	info := map[string]any{"available": true}
+	var cases []straceCase
+	counts := map[string]map[string]int{}
+	for _, sc := range straceScenarios {
+		base := b.runStrace(doc, sc, nil, "base-"+sc.name, rels, true)
+		if base.exit != 0 {
+			// ptrace may be unavailable in this sandbox: the cross-check is then informational only
+			return map[string]any{"available": false, "reason": "baseline run under strace failed: " + firstLine(base.out)}
+		}
+		tr, _ := os.ReadFile(base.root + ".trace")
+		_ = os.Remove(base.root + ".trace")
+		// strace counts when=N per thread and the Go runtime moves the installing goroutine between
+		// threads, so N ranges over the total count; injections that did not fire are counted as such
+		per := map[string]int{}
+		for _, ln := range strings.Split(string(tr), "\n") {
+			if m := reTraceLine.FindStringSubmatch(ln); m != nil {
+				per[m[2]]++
+			}
+		}
+		counts[sc.name] = per
+		for _, s := range straceSyscalls {
+			for n := 1; n <= per[s]; n++ {
+				for _, k := range []string{"kill", "eio"} {
+					cases = append(cases, straceCase{Scenario: sc.name, Syscall: s, When: n, Kind: k})
+				}
+				if s == "write" || s == "openat" || s == "mkdirat" {
+					cases = append(cases, straceCase{Scenario: sc.name, Syscall: s, When: n, Kind: "enospc"})
+				}
+			}
+		}
+		_ = os.RemoveAll(base.root)
+	}
+	var mu sync.Mutex
+	effective, reruns := map[string]int{}, 0
+	type hit struct {
+		c           straceCase
+		sig, detail string
+	}
+	var hits []hit
+	drv.Parallel(len(cases), drv.Workers(), func(i int) {
+		c := cases[i]
+		sig, detail, eff, rr := b.oneStraceCase(doc, c, fmt.Sprint("c", i), skill, rels)
+		mu.Lock()
+		defer mu.Unlock()
+		if eff {
+			effective[c.Kind+":"+c.Syscall]++
+		}
+		reruns += rr
+		if sig != "" {
+			hits = append(hits, hit{c, sig, detail})
+		}
+	})
+	sort.Slice(hits, func(i, j int) bool { return fmt.Sprint(hits[i].c) < fmt.Sprint(hits[j].c) })
+	for _, h := range hits {
+		raw, _ := json.MarshalIndent(map[string]any{"engine": "strace", "property": "C15", "signature": h.sig, "detail": h.detail, "case": h.c}, "", " ")
+		out.Add(drv.Violation{Property: "C15", Signature: h.sig + ":" + h.c.Syscall, Detail: fmt.Sprintf("real kernel, %s %s#%d in scenario %s: %s", h.c.Kind, h.c.Syscall, h.c.When, h.c.Scenario, h.detail), Replay: raw})
+	}
+	info["cases"] = len(cases)
+	info["injections_effective_by_kind_and_syscall"] = effective
+	info["reruns_after_kill_verified"] = reruns
+	info["syscalls_of_fault_free_run"] = counts
+	info["scenarios"] = []string{"fresh destination, project default", "older install + leftover .tmp + unrelated file, --user", "older install, --path relative"}
+	return info
+}
+
+func firstLine(s string) string {
+	if i := strings.IndexByte(s, '\n'); i >= 0 {
+		return s[:i]
+	}
+	return s
+}
+
+func (b *build) oneStraceCase(doc []docAgent, c straceCase, id string, skill map[string]string, rels []string) (sig, detail string, effective bool, reruns int) {
+	var sc straceScenario
+	for _, s := range straceScenarios {
+		if s.name == c.Scenario {
+			sc = s
+		}
+	}
+	r := b.runStrace(doc, sc, &c, id, rels, false)
+	defer os.RemoveAll(r.root)
+	crashed := c.Kind == "kill" && r.killed
+	effective = crashed || (c.Kind != "kill" && r.injected)
+	if !effective {
+		return "", "", false, 0
+	}
+	sig, detail = judgeReal(r, skill, rels, crashed)
+	if sig != "" || !crashed {
+		return
+	}
+	// a later successful run completes the installation (same directory, no injection)
+	home, cwd := filepath.Join(r.root, "home"), filepath.Join(r.root, "cwd")
+	args := append([]string{"llm-setup", sc.agent}, sc.args...)
+	again := drv.Run(cwd, 2*time.Minute, []string{"HOME=" + home}, b.kessoku, args...)
+	post := snapshotReal(r.root)
+	if again.Code != 0 {
+		return "kernel:rerun_failed", "after the kill a normal run fails: " + firstLine(string(again.Out)), true, 0
+	}
+	for _, rel := range rels {
+		po, ok := post[filepath.Join(r.dest, rel)]
+		if !ok || po.Data != skill[rel] || po.Mode != 0o644 {
+			return "kernel:rerun_incomplete", "after the kill a normal run leaves " + rel + " missing or wrong", true, 0
+		}
+	}
+	return "", "", true, 1
+}
+
+func (b *build) replayStrace(raw []byte, file string) int {
+	var v struct {
+		Signature string     `json:"signature"`
+		Case      straceCase `json:"case"`
+	}
+	if err := json.Unmarshal(raw, &v); err != nil {
+		drv.Broken("bad replay file: %v", err)
+	}
+	b.buildCLI()
+	doc := parseReadme(filepath.Join(b.scratch, "pristine", "README.md"))
+	skill, rels := loadSkillReal(filepath.Join(b.scratch, "pristine", "internal", "llmsetup", "skills", "kessoku-di"))
+	sig, detail, eff, _ := b.oneStraceCase(doc, v.Case, "replay", skill, rels)
+	fmt.Printf("replay: strace %s %s#%d in %s: injected=%v signature=%q %s\n", v.Case.Kind, v.Case.Syscall, v.Case.When, v.Case.Scenario, eff, sig, detail)
+	if sig == "" {
+		fmt.Println("replay: the violation does NOT reproduce on this tree")
+		return drv.ExitOK
+	}
+	fmt.Printf("VIOLATION property=C15 replay=%s\n", file)
+	return drv.ExitViolation
+}
